@@ -16,8 +16,8 @@ Require Import ExcerptModel Model Spec Refine Entry Finalize EntryProofs Shift.
 Theorem C08_three_outcomes :
   forall (g funs : list (list nat * expr)) (ignored : option nat)
          (t : list nat) (rx : nat -> nat -> option nat),
-    (forall r ps b, nth_error g r = Some (ps, b) -> wf g funs ignored t rx ps b) ->
-    (forall fid ps b, nth_error funs fid = Some (ps, b) -> wf g funs ignored t rx ps b) ->
+    (forall r ps b, nth_error g r = Some (ps, b) -> wf ps b) ->
+    (forall fid ps b, nth_error funs fid = Some (ps, b) -> wf ps b) ->
     (forall r, ignored = Some r -> exists es, nth_error g r = Some ([], Skip es)) ->
     forall fuel entry b p full, nth_error g entry = Some ([], b) ->
       match peg g funs ignored t rx fuel [] b p,
